@@ -604,6 +604,38 @@ func (e *Explorer) check(extra string) string {
 	return r
 }
 
+// check2 asks for the feasibility of cond and of its negation in one round trip to the solver.
+func (e *Explorer) check2(cond string) (string, string) {
+	t0 := time.Now()
+	e.Queries += 2
+	r := e.solver.ask("(push 1)\n(assert " + cond + ")\n(check-sat)\n(pop 1)\n(push 1)\n(assert (not " + cond + "))\n(check-sat)\n(pop 1)")
+	e.SolverTime += time.Since(t0)
+	out := []string{"unknown", "unknown"}
+	if !strings.Contains(r, "(error") {
+		k := 0
+		for _, ln := range strings.Split(r, "\n") {
+			ln = strings.TrimSpace(ln)
+			if ln == "sat" || ln == "unsat" || ln == "unknown" || strings.HasPrefix(ln, "timeout") {
+				if k < 2 {
+					if ln == "sat" || ln == "unsat" {
+						out[k] = ln
+					}
+					k++
+				}
+			}
+		}
+	} else {
+		fmt.Fprintln(os.Stderr, "solver error:", r, "<=", cond)
+	}
+	for _, x := range out {
+		if x == "unknown" {
+			e.unknowns++
+			e.Unknowns++
+		}
+	}
+	return out[0], out[1]
+}
+
 // branch decides a symbolic condition: replayed from the prefix, or decided by the solver (both sides feasible: the
 // other side is queued).
 func (e *Explorer) branch(cond string) bool {
@@ -627,8 +659,7 @@ func (e *Explorer) branch(cond string) bool {
 	if e.MaxDecision > 0 && k >= e.MaxDecision {
 		panic(boundPanic{fmt.Sprintf("more than %d decisions on one path", e.MaxDecision)})
 	}
-	rt := e.check(cond)
-	rf := e.check("(not " + cond + ")")
+	rt, rf := e.check2(cond)
 	switch {
 	case rt != "unsat" && rf != "unsat":
 		alt := append(append([]decision{}, e.taken...), decision{Taken: false})
@@ -745,7 +776,8 @@ func condBool(v value) bool {
 
 type solverProc struct {
 	cmd   *exec.Cmd
-	in    io.WriteCloser
+	raw   io.WriteCloser
+	in    *bufio.Writer
 	out   *bufio.Reader
 	depth int
 	log   io.Writer
@@ -765,8 +797,9 @@ func newSolver(bin string, timeoutMs int) (*solverProc, error) {
 	if err := cmd.Start(); err != nil {
 		return nil, err
 	}
-	s := &solverProc{cmd: cmd, in: in, out: bufio.NewReaderSize(out, 1<<16)}
-	s.send(fmt.Sprintf("(set-option :timeout %d)", timeoutMs))
+	s := &solverProc{cmd: cmd, raw: in, in: bufio.NewWriterSize(in, 1<<16), out: bufio.NewReaderSize(out, 1<<16)}
+	// a resource limit instead of :timeout (which makes z3 start a timer thread for every check-sat: far more expensive than the queries here)
+	s.send(fmt.Sprintf("(set-option :rlimit %d)", timeoutMs*4000))
 	s.send("(set-option :model.completion true)")
 	return s, nil
 }
@@ -775,11 +808,13 @@ func (s *solverProc) send(text string) {
 	if s.log != nil {
 		fmt.Fprintln(s.log, text)
 	}
-	io.WriteString(s.in, text+"\n")
+	s.in.WriteString(text)
+	s.in.WriteByte('\n')
 }
 
 func (s *solverProc) ask(text string) string {
 	s.send(text + "\n(echo \"@@\")")
+	s.in.Flush()
 	var sb strings.Builder
 	for {
 		line, err := s.out.ReadString('\n')
@@ -845,8 +880,9 @@ func (s *solverProc) evalBool(term string) (bool, bool) {
 }
 
 func (s *solverProc) close() {
-	io.WriteString(s.in, "(exit)\n")
-	s.in.Close()
+	s.in.WriteString("(exit)\n")
+	s.in.Flush()
+	s.raw.Close()
 	s.cmd.Wait()
 }
 
